@@ -81,19 +81,27 @@ def shuffle(items, seed):
     random.Random(seed).shuffle(items)
 
 
-def find_replayable(E, path, cond, lv, concrete_fn, tries=8, nice=64):
+def find_replayable(E, path, cond, lv, concrete_fn, tries=8, nice=64, hints=()):
     """models of path.pc & cond, turned into concrete values and replayed through concrete_fn.
+    hints: extra constraints tried first (they only steer which model is picked for the replay, e.g. towards values whose
+    CPython set order differs from the sorted order); the verdict never depends on them.
     returns ('unsat'|'unknown'|'unconfirmed', None) or ('sat', cex dict)"""
     block = []
     first = True
-    for attempt in range(tries):
-        bounds = [v <= nice for (_, _, v) in lv.vars] if attempt < tries // 2 else []
-        r, mdl = E.query(path, cond, extra=block + bounds)
-        if r == "unsat" and bounds:
+    plans = [list(h) if isinstance(h, (list, tuple)) else [h] for h in hints] + [None] * tries
+    for attempt, hint in enumerate(plans):
+        bounds = [v <= nice for (_, _, v) in lv.vars] if attempt < len(plans) - tries // 2 else []
+        extra = block + bounds + (hint or [])
+        r, mdl = E.query(path, cond, extra=extra)
+        if r == "unsat" and (bounds or hint):
+            if hint is not None:
+                continue
             r, mdl = E.query(path, cond, extra=block)
         if r == "unsat":
             return ("unsat", None) if first else ("unconfirmed", None)
         if r != "sat":
+            if hint is not None:
+                continue
             return ("unknown", None) if first else ("unconfirmed", None)
         first = False
         vals = lv.model_values(mdl)
@@ -103,6 +111,9 @@ def find_replayable(E, path, cond, lv, concrete_fn, tries=8, nice=64):
         if not lv.vars:
             return "unconfirmed", None
         block.append(z3.Or([v != mdl.eval(v, model_completion=True) for (_, _, v) in lv.vars]))
+    if first:
+        r, _ = E.query(path, cond)
+        return ("unsat", None) if r == "unsat" else (("unknown", None) if r != "sat" else ("unconfirmed", None))
     return "unconfirmed", None
 
 
@@ -113,7 +124,7 @@ def _chunk_worker(arg):
         t0 = time.time()
         try:
             r = fn(item)
-        except Exception as e:  # noqa: harness bug inside a worker -> inconclusive, never a pass
+        except BaseException as e:  # noqa: harness bug inside a worker (incl. a stray Abort) -> inconclusive, never a pass or a hang
             import traceback
             r = {"spec": item, "result": "inconclusive", "why": "harness exception: %r\n%s" % (e, traceback.format_exc()[-1500:]),
                  "paths": 0, "stats": None, "funcs": []}
